@@ -1,6 +1,6 @@
 """C20 — send_buffer_size() is exact and returns to zero."""
 from props import _hc
-from hc_oracles import send_buffer_oracle, completion_oracle
+from hc_oracles import quiescent_buffer_oracle, send_buffer_oracle, completion_oracle
 
 PROP = "C20"
 COQ_FILE = "props/C20.v"
@@ -15,8 +15,8 @@ THEOREM_STATEMENTS = ["C20_exact: forall w b m ops, w <= 4096 -> b < 2^20 -> let
 
 
 def streams(seed, tier):
-    return _hc.build_streams(["pair", "tx", "hostile"], seed, tier, 0.6)
+    return _hc.build_streams(["pair", "tx", "hostile", "ideal", "live"], seed, tier, 0.6)
 
 
 def oracle(name, ops, out):
-    return _hc.run_oracles({"*": [send_buffer_oracle]}, name, ops, out)
+    return _hc.run_oracles({"*": [send_buffer_oracle], "ideal": [quiescent_buffer_oracle], "live": [quiescent_buffer_oracle]}, name, ops, out)
